@@ -50,7 +50,9 @@ pub struct PushCase {
     pub script: Vec<Beh>,
     pub n_msgs: u8,
     /// 0 push subscription, 1 pull-only control subscription on the same topic,
-    /// 2 push subscription deleted after `delete_after_ms`
+    /// 2 push subscription deleted after `delete_after_ms`,
+    /// 3 push subscription whose topic and then itself are deleted before anything is
+    ///   published; both names are then re-created, the subscription WITHOUT a push endpoint
     pub kind: u8,
     pub delete_after_ms: u32,
     pub payload: crate::case::Payload,
@@ -268,6 +270,22 @@ pub fn run_batch(cases: &[PushCase], secs: u64) -> BatchOut {
                 v("setup_failed", &["C14"], format!("CreateSubscription: {}", e));
             }
         }
+        // kind 3: delete (topic first), then re-create under the same names as pull-only
+        for (i, c) in cases.iter().enumerate() {
+            if c.kind != 3 {
+                continue;
+            }
+            let topic = format!("projects/pp/topics/top{}", i);
+            let sub = format!("projects/pp/subscriptions/sub{}", i);
+            let _ = p.delete_topic(DeleteTopicRequest { topic: topic.clone() }).await;
+            let _ = s.delete_subscription(DeleteSubscriptionRequest { subscription: sub.clone() }).await;
+            if let Err(e) = p.create_topic(Topic { name: topic.clone(), ..Default::default() }).await {
+                v("setup_failed", &["C14"], format!("re-CreateTopic: {}", e));
+            }
+            if let Err(e) = s.create_subscription(Subscription { name: sub.clone(), topic: topic.clone(), ack_deadline_seconds: 10, push_config: None, ..Default::default() }).await {
+                v("setup_failed", &["C14"], format!("re-CreateSubscription: {}", e));
+            }
+        }
         let t0 = st.lock().unwrap().t0;
         for (i, c) in cases.iter().enumerate() {
             let topic = format!("projects/pp/topics/top{}", i);
@@ -333,7 +351,7 @@ pub fn run_batch(cases: &[PushCase], secs: u64) -> BatchOut {
             let path = format!("/c{}", i);
             let sub = format!("projects/pp/subscriptions/sub{}", i);
             let mine: Vec<&Hit> = hits.iter().filter(|h| h.path == path).collect();
-            if c.kind == 1 {
+            if c.kind == 1 || c.kind == 3 {
                 // pull-only: never POSTed to
                 if let Some(h) = hits.iter().find(|h| h.subscription.as_deref() == Some(sub.as_str())) {
                     v("pull_subscription_pushed", &["C14"], format!("{} has no push endpoint but a POST naming it arrived at {} ms", sub, h.t_ms));
@@ -469,7 +487,10 @@ pub fn build_cases(tier: Tier, seed: u64, batch: u64) -> Vec<PushCase> {
         x
     };
     let payload = |k: u64| -> crate::case::Payload {
-        match k % 5 {
+        match k % 8 {
+            5 => crate::case::Payload { kind: 4, len: 4089, attrs: 0, odd: false },
+            6 => crate::case::Payload { kind: 4, len: 10_000, attrs: 1, odd: false },
+            7 => crate::case::Payload { kind: 4, len: 70_000, attrs: 0, odd: false },
             0 => plain(),
             1 => crate::case::Payload { kind: 0, len: 0, attrs: 3, odd: false },
             2 => crate::case::Payload { kind: 3, len: 0, attrs: 1, odd: true },
@@ -487,7 +508,7 @@ pub fn build_cases(tier: Tier, seed: u64, batch: u64) -> Vec<PushCase> {
         Tier::Thorough => 150usize,
     };
     let mut k = (batch as usize * 97) % all_pairs.len();
-    while cases.len() < want - 8 {
+    while cases.len() < want - 10 {
         let (a, b) = all_pairs[k % all_pairs.len()].clone();
         k += match tier {
             Tier::Quick => 7,
@@ -504,6 +525,9 @@ pub fn build_cases(tier: Tier, seed: u64, batch: u64) -> Vec<PushCase> {
     }
     // pull-only controls and deletions
     for j in 0..4 {
+        if j < 2 {
+            cases.push(PushCase { script: vec![Beh::Status(200)], n_msgs: 2, kind: 3, delete_after_ms: 0, payload: plain() });
+        }
         cases.push(PushCase { script: vec![Beh::Status(200)], n_msgs: 2, kind: 1, delete_after_ms: 0, payload: plain() });
         cases.push(PushCase { script: vec![Beh::Status(500)], n_msgs: 2, kind: 2, delete_after_ms: 300 + j * 900, payload: plain() });
     }
